@@ -61,6 +61,11 @@ type timestampOracle struct {
 	saveInterval           time.Duration
 	updatePhysicalInterval time.Duration
 	maxResetTSGap          func() time.Duration
+	// windowMux serializes the writers of the persisted time window (SyncTimestamp,
+	// UpdateTimestamp and resetUserTimestamp), so that a window decided against an older
+	// in-memory state can never overwrite a newer and larger one.
+	// Lock order: windowMux before tsoMux.
+	windowMux sync.Mutex
 	// tso info stored in the memory
 	tsoMux *tsoObject
 	// last timestamp window stored in etcd
@@ -182,6 +187,8 @@ func (t *timestampOracle) saveTimestamp(leadership *election.Leadership, ts time
 
 // SyncTimestamp is used to synchronize the timestamp.
 func (t *timestampOracle) SyncTimestamp(leadership *election.Leadership) error {
+	t.windowMux.Lock()
+	defer t.windowMux.Unlock()
 	tsoCounter.WithLabelValues("sync", t.dcLocation).Inc()
 
 	failpoint.Inject("delaySyncTimestamp", func() {
@@ -234,6 +241,8 @@ func (t *timestampOracle) isInitialized() bool {
 // When ignoreSmaller is true, resetUserTimestamp will ignore the smaller tso resetting error and do nothing.
 // It's used to write MaxTS during the Global TSO synchronization whitout failing the writing as much as possible.
 func (t *timestampOracle) resetUserTimestamp(leadership *election.Leadership, tso uint64, ignoreSmaller bool) error {
+	t.windowMux.Lock()
+	defer t.windowMux.Unlock()
 	t.tsoMux.Lock()
 	defer t.tsoMux.Unlock()
 	if !leadership.Check() {
@@ -294,6 +303,8 @@ func (t *timestampOracle) resetUserTimestamp(leadership *election.Leadership, ts
 // 2. The physical time is monotonically increasing.
 // 3. The physical time is always less than the saved timestamp.
 func (t *timestampOracle) UpdateTimestamp(leadership *election.Leadership) error {
+	t.windowMux.Lock()
+	defer t.windowMux.Unlock()
 	prevPhysical, prevLogical := t.getTSO()
 	tsoGauge.WithLabelValues("tso", t.dcLocation).Set(float64(prevPhysical.UnixNano() / int64(time.Millisecond)))
 	tsoGap.WithLabelValues(t.dcLocation).Set(float64(time.Since(prevPhysical).Milliseconds()))
